@@ -404,7 +404,7 @@ class Run:
 
 
 def _is_atom(a):
-    return a in ("~", "-") or all(c in "0123456789abcdef." for c in a)
+    return a in ("~", "-") or (a != "" and all(c in "0123456789abcdef." for c in a))
 
 
 def _first_error(log):
